@@ -97,6 +97,12 @@ func libParsedWith(hp *codecs.H265Packet, p []byte) (string, error) {
 	if _, err := hp.Unmarshal(clone(p)); err != nil {
 		return "", err
 	}
+
+	return renderH265(hp.Packet())
+}
+
+// renderH265 renders what the accessors of a decoded packet report.
+func renderH265(pkt any) (string, error) {
 	dp := func(v *uint16) string {
 		if v == nil {
 			return "-"
@@ -104,7 +110,7 @@ func libParsedWith(hp *codecs.H265Packet, p []byte) (string, error) {
 
 		return fmt.Sprint(*v)
 	}
-	switch x := hp.Packet().(type) {
+	switch x := pkt.(type) {
 	case *codecs.H265SingleNALUnitPacket:
 		h := x.PayloadHeader()
 
@@ -134,7 +140,7 @@ func libParsedWith(hp *codecs.H265Packet, p []byte) (string, error) {
 		return s, nil
 	}
 
-	return "", failf("H265Packet.Packet() has unknown type %T", hp.Packet())
+	return "", failf("H265Packet.Packet() has unknown type %T", pkt)
 }
 
 // refRendered renders the reference parse in the same vocabulary.
@@ -187,6 +193,11 @@ func checkC14Pay(r *run, c *H265PayCase) (CaseInfo, error) {
 	var stream codecs.H265Packet
 	stream.WithDONL(c.AddDONL)
 	streamed := 0
+	type keptH265 struct {
+		pkt      any
+		rendered string
+	}
+	var kept []keptH265 // what Packet() returned for every payload, read again after the whole stream was decoded
 	for callI, units := range c.Calls {
 		buf := annexB(units)
 		orig := clone(buf)
@@ -198,6 +209,9 @@ func checkC14Pay(r *run, c *H265PayCase) (CaseInfo, error) {
 			}
 			fresh, ferr := libParsed(p, c.AddDONL)
 			used, uerr := libParsedWith(&stream, p)
+			if uerr == nil {
+				kept = append(kept, keptH265{stream.Packet(), used})
+			}
 			if (ferr == nil) != (uerr == nil) || fresh != used {
 				return ci, failf("call %d payload %d/%d (mtu %d, donl %v) %s: an H265Packet that decoded the %d earlier payloads of this stream reads\n  %s (%v)\na fresh one\n  %s (%v)", callI, pi, len(payloads), mtu, c.AddDONL, hx(p), streamed, used, uerr, fresh, ferr)
 			}
@@ -371,6 +385,11 @@ func checkC14Pay(r *run, c *H265PayCase) (CaseInfo, error) {
 		if hasAP && hasFU {
 			ci.class("ap-and-fu")
 			ci.Nontrivial = true
+		}
+	}
+	for k, kp := range kept {
+		if now, err := renderH265(kp.pkt); err != nil || now != kp.rendered {
+			return ci, failf("what Packet() returned for payload %d of the stream reads differently after the %d later payloads were decoded by the same H265Packet:\n now:  %s (%v)\n then: %s", k, len(kept)-1-k, now, err, kp.rendered)
 		}
 	}
 	if streamed >= 2 {
@@ -735,7 +754,7 @@ func genH265DecCase1(t *rapid.T) *H265DecCase {
 	return c
 }
 
-const ruleC14 = "payloader: 1-2 calls of 1-6 HEVC NAL units (types 0-47, layer 0-63, TID 1-7, F=1 rarely, sizes 3 bytes to several MTUs biased to MTU-4..MTU+4 and 2+k*(MTU-3)+-1 (one case in 60 holds a unit of 65530-131072 bytes), bodies free of start-code emulation), MTU >= 4 (>= 6 with DONL) biased to the floor and small values, SkipAggregation x AddDONL; every payload is parsed by an independent RFC 7798 parser and by H265Packet (all accessors must agree): <= MTU, single = unit (+DONL), AP type 48/F=0/min layer/min TID/>=2 units, FU trains >=2 with S/E placement and FuType/F/layer/TID preserved, DONL placement, IsPartitionHead, byte-exact reassembly. decoder: reference-built single/AP(2-6 units)/FU(start,middle,end)/PACI(+TSCI) payloads with and without DONL/DOND and every truncation: too-short ones rejected, others read field by field as the reference parser; half of the cases decode 1-3 other payloads through the same H265Packet first, and the payloader check decodes every stream through one H265Packet besides a fresh one per payload (readings must agree). accessors: all 2^16 payload headers, 2^8 FU headers, 2^16 PACI field words, TSCI triples (2^24 in thorough). Non-trivial = AP together with an FU train, unit length within the single-packet threshold window, AP>=3 units with DONL, PACI with TSCI, truncation, every accessor value; distinct = FNV-64 of the JSON case"
+const ruleC14 = "payloader: 1-2 calls of 1-6 HEVC NAL units (types 0-47, layer 0-63, TID 1-7, F=1 rarely, sizes 3 bytes to several MTUs biased to MTU-4..MTU+4 and 2+k*(MTU-3)+-1 (one case in 60 holds a unit of 65530-131072 bytes), bodies free of start-code emulation), MTU >= 4 (>= 6 with DONL) biased to the floor and small values, SkipAggregation x AddDONL; every payload is parsed by an independent RFC 7798 parser and by H265Packet (all accessors must agree): <= MTU, single = unit (+DONL), AP type 48/F=0/min layer/min TID/>=2 units, FU trains >=2 with S/E placement and FuType/F/layer/TID preserved, DONL placement, IsPartitionHead, byte-exact reassembly. decoder: reference-built single/AP(2-6 units)/FU(start,middle,end)/PACI(+TSCI) payloads with and without DONL/DOND and every truncation: too-short ones rejected, others read field by field as the reference parser; half of the cases decode 1-3 other payloads through the same H265Packet first, and the payloader check decodes every stream through one H265Packet besides a fresh one per payload (readings must agree, and what Packet() returned for earlier payloads must still read the same at the end). accessors: all 2^16 payload headers, 2^8 FU headers, 2^16 PACI field words, TSCI triples (2^24 in thorough). Non-trivial = AP together with an FU train, unit length within the single-packet threshold window, AP>=3 units with DONL, PACI with TSCI, truncation, every accessor value; distinct = FNV-64 of the JSON case"
 
 func TestC14(t *testing.T) {
 	r := begin(t, "C14", "exploration", ruleC14)
